@@ -247,6 +247,16 @@ def family_c06(tier, seed):
                 pipe = build("sel", (s_, tk, w_), alpha)
                 if pipe is not None:
                     bases.append((f"sel:{s_}>{tk}>{w_}", Prog(pipe)))
+    # consecutive takes that the compiler merges into one LIMIT/OFFSET when they share a SELECT: naming the prefix between
+    # them, or putting `filter true` there, forces two SELECTs - both forms must agree
+    for s_ in ("sort_asc", "sort_desc2"):
+        for tk1 in ("take_open", "take_range", "take_n"):
+            for mid in (None, "derive_add", "select_2"):
+                for tk2 in ("take_n", "take_range"):
+                    seq = (s_, tk1) + ((mid,) if mid else ()) + (tk2,)
+                    pipe = build("sel", seq, alpha)
+                    if pipe is not None:
+                        bases.append(("sel:" + ">".join(seq), Prog(pipe)))
     if tier == "thorough":
         names = ["derive_lit", "filter_and", "filter_halfopen", "derive_halfopen", "sort_asc", "take_n", "group_agg", "join_inner", "win_sum", "select_2", "agg", "group_take", "distinct", "derive_mix", "take_range"]
         bases += [b for b in enumerate_family(3, heads=("sel",), alphabet=alpha, only_names=names) if b[0].count(">") == 2]
